@@ -164,6 +164,7 @@ fn run_pinned() -> i32 {
             context: [Context::External, Context::InWorker, Context::Siblings, Context::Warm][(seed % 4) as usize],
             cpus: 1 + (seed % 3) as usize,
             envvars_seed: seed % 2 * (seed + 1),
+            heap_seed: seed % 3,
             replay: None,
         };
         let a = run_sim(&e, probe);
